@@ -175,6 +175,176 @@ Proof.
   rewrite X. reflexivity.
 Qed.
 
+(* the sessions owning a node of the truncated visit list = the sessions owning a node the brute-force test accepts *)
+Lemma vt_owners : forall (sessions : list session) (t : tree) (mt : matcher) (r : sid),
+  tree_wf t -> (forall n, In n t -> Forall okname (n_path n)) -> matcher_wf mt ->
+  ((exists n ss, In n (Vt t mt true true (S (max_clauses mt)) []) /\ owner_of sessions (n_path n) = Some ss /\ s_id ss = r) <->
+   existsb (fun n => owned_by sessions r n && matches_path mt (n_path n) (Some (n_data n))) t = true).
+Proof.
+  intros sessions t mt r TWF NOK MWF.
+  destruct (traversal_eq_bruteforce_lemma okname ckeys_sound ckeys_complete t mt [] true TWF MWF NOK) as [_ SEL].
+  rewrite visits_V in SEL. cbn [length] in SEL. rewrite existsb_exists. split.
+  - intros [n [ss [Hn [Ho Hid]]]]. apply Vt_incl in Hn. apply SEL in Hn. destruct Hn as [Hnt [_ Hm]]. cbn in Hm.
+    exists n. split; [assumption|]. apply andb_true_iff. split; [|assumption]. unfold owned_by. rewrite Ho. now apply N.eqb_eq.
+  - intros [n [Hnt Hx]]. apply andb_true_iff in Hx. destruct Hx as [Hown Hm].
+    assert (Hsel : In n (V t mt 0 true true (S (max_clauses mt)) [])).
+    { apply SEL. split; [assumption|]. split.
+      - exists (n_path n). split; [|reflexivity]. destruct TWF as [_ [NE _]]. now apply NE.
+      - exact Hm. }
+    destruct (Vt_covers t mt true true _ [] n (Nat.lt_0_succ 2) Hsel) as [n' [Hn' Hp]].
+    unfold owned_by in Hown. destruct (owner_of sessions (n_path n)) as [ss|] eqn:Ho; [|discriminate].
+    apply N.eqb_eq in Hown. exists n', ss. split; [assumption|]. split; [|assumption].
+    unfold owner_of in *. rewrite <- owner_key_firstn, Hp, owner_key_firstn. exact Ho.
+Qed.
+
+(* ------------------------------------------------------------------ FindMatchingSessions *)
+
+Section FindSessions.
+Variable sessions : list session.
+
+Definition sess_h (acc : list sid) (n : node) : list sid := fst (sessions_cb sessions None acc n).
+
+Lemma sessions_cb_K : forall acc n, sessions_cb sessions None acc n = cbK _ sess_h acc n.
+Proof. intros acc n. unfold cbK, sess_h, sessions_cb. cbn [fst]. now rewrite pass_depth_2. Qed.
+
+Lemma fold_sess_h : forall L acc,
+  NoDup acc ->
+  NoDup (fold_left sess_h L acc) /\
+  (forall r, In r (fold_left sess_h L acc) <->
+             In r acc \/ exists n ss, In n L /\ owner_of sessions (n_path n) = Some ss /\ s_id ss = r).
+Proof.
+  induction L as [|n L IH]; intros acc ND.
+  - cbn. split; [assumption|]. intros r. split; [now left | intros [H|[n [ss [[] _]]]]; assumption].
+  - cbn [fold_left]. unfold sess_h at 2 4, sessions_cb. cbn [fst].
+    destruct (owner_of sessions (n_path n)) as [ss|] eqn:Ho.
+    + destruct (sid_mem (s_id ss) acc) eqn:Hm.
+      * destruct (IH acc ND) as [I1 I2]. split; [assumption|]. intros r. rewrite I2. split.
+        -- intros [H|[n0 [ss0 [H1 H2]]]]; [now left | right; exists n0, ss0; split; [now right | assumption]].
+        -- intros [H|[n0 [ss0 [[H1|H1] [H2 H3]]]]]; [now left | | right; exists n0, ss0; now repeat split].
+           subst n0. rewrite Ho in H2. inversion H2; subst ss0. subst r. left. now apply sid_mem_in.
+      * assert (ND' : NoDup (acc ++ [s_id ss])).
+        { apply nodup_app_intro; [assumption | constructor; [intros [] | constructor] |].
+          intros x Hx [E|[]]. subst x. apply sid_mem_in in Hx. congruence. }
+        destruct (IH _ ND') as [I1 I2]. split; [assumption|]. intros r. rewrite I2. rewrite in_app_iff. cbn [In]. split.
+        -- intros [[H|[H|[]]]|[n0 [ss0 [H1 H2]]]].
+           ++ now left.
+           ++ right. exists n, ss. split; [now left | now split].
+           ++ right. exists n0, ss0. split; [now right | assumption].
+        -- intros [H|[n0 [ss0 [[H1|H1] [H2 H3]]]]].
+           ++ left. now left.
+           ++ subst n0. rewrite Ho in H2. inversion H2; subst ss0. left. right. now left.
+           ++ right. exists n0, ss0. now repeat split.
+    + destruct (IH acc ND) as [I1 I2]. split; [assumption|]. intros r. rewrite I2. split.
+      * intros [H|[n0 [ss0 [H1 H2]]]]; [now left | right; exists n0, ss0; split; [now right | assumption]].
+      * intros [H|[n0 [ss0 [[H1|H1] [H2 H3]]]]]; [now left | subst n0; congruence | right; exists n0, ss0; now repeat split].
+Qed.
+
+End FindSessions.
+
+(* FindMatchingSessions(path, filter, results, includeSelf, MUSCLE_NO_LIMIT) with a non-empty path: every session owning
+   a node the pattern (and its filter) accepts, each once; the caller itself only when asked for *)
+Theorem find_sessions_lemma : forall (st : rstate) (s : sid) (sp : spath) (f : option qfilter) (include_self : bool),
+  tree_wf (sv_tree (rs_srv st)) -> (forall n, In n (sv_tree (rs_srv st)) -> Forall okname (n_path n)) ->
+  fix_path sp <> [] ->
+  NoDup (find_sessions FX st s sp f include_self None) /\
+  (forall r, In r (find_sessions FX st s sp f include_self None) <->
+             (include_self = true \/ r <> s) /\
+             existsb (fun n => owned_by (sv_sessions (rs_srv st)) r n &&
+                               matches_path (m_put empty_matcher (fix_path sp) f) (n_path n) (Some (n_data n)))
+                     (sv_tree (rs_srv st)) = true).
+Proof.
+  intros st s sp f include_self TWF NOK Hfp. unfold find_sessions.
+  destruct (fix_path sp) as [|c fp] eqn:E; [now contradiction Hfp|]. clear Hfp.
+  set (mt := m_put empty_matcher (c :: fp) f).
+  assert (MWF : matcher_wf mt) by (apply m_put_wf; apply empty_matcher_wf).
+  set (all := do_traversal (sessions_cb (sv_sessions (rs_srv st)) None) (sv_tree (rs_srv st)) mt [] true (rf_guard FX) []).
+  assert (Hall : NoDup all /\ forall r, In r all <->
+                 existsb (fun n => owned_by (sv_sessions (rs_srv st)) r n && matches_path mt (n_path n) (Some (n_data n)))
+                         (sv_tree (rs_srv st)) = true).
+  { unfold all, do_traversal. cbn [rf_guard FX length].
+    rewrite (trav_ext _ _ _ _ _ _ _ _ (sessions_cb_K (sv_sessions (rs_srv st)))).
+    rewrite trav_const_depth.
+    destruct (fold_sess_h (sv_sessions (rs_srv st)) (Vt (sv_tree (rs_srv st)) mt true true (S (max_clauses mt)) []) [] (NoDup_nil _)) as [F1 F2].
+    split; [assumption|]. intros r. rewrite F2. rewrite <- (vt_owners _ _ mt r TWF NOK MWF). split; [intros [[]|H]; assumption | now right]. }
+  destruct Hall as [H1 H2]. destruct include_self.
+  - split; [assumption|]. intros r. rewrite H2. split; [intros H; split; [now left | assumption] | tauto].
+  - split; [now apply NoDup_filter|]. intros r. rewrite filter_In, H2, negb_true_iff, N.eqb_neq. split.
+    + intros [H3 H4]. split; [now right | assumption].
+    + intros [[H3|H3] H4]; [discriminate | now split].
+Qed.
+
+(* ------------------------------------------------------------------ FindMatchingNodes / FindNodesCallback *)
+
+Lemma collect_cb_S : forall (k : nat) (acc : list node) (n : node),
+  collect_cb (Some k) acc n = cbS (list node) (fun a x => x :: a) (fun a => Nat.eqb (length a) k) acc n.
+Proof. reflexivity. Qed.
+
+Lemma sfold_collect : forall (k : nat) (L acc : list node),
+  length acc < k ->
+  fst (sfold (list node) (fun a x => x :: a) (fun a => Nat.eqb (length a) k) L acc) = rev (firstn (k - length acc) L) ++ acc.
+Proof.
+  intros k L. induction L as [|n L IH]; intros acc Hlt.
+  - cbn. now rewrite firstn_nil.
+  - cbn [sfold]. destruct (Nat.eqb (length (n :: acc)) k) eqn:E.
+    + apply Nat.eqb_eq in E. cbn [length] in E. cbn [fst]. replace (k - length acc) with 1 by lia. reflexivity.
+    + apply Nat.eqb_neq in E. cbn [length] in E. rewrite IH by (cbn; lia). cbn [length].
+      replace (k - length acc) with (S (k - S (length acc))) by lia. cbn [firstn rev]. now rewrite <- app_assoc.
+Qed.
+
+(* a traversal with FindNodesCallback and a positive result limit k returns the first k nodes of the unlimited traversal
+   (hence, by traversal_eq_bruteforce, k distinct nodes the brute-force test accepts, or all of them when there are fewer) *)
+Theorem find_nodes_limit_lemma : forall (fx : rfixes) (t : tree) (m : matcher) (root : path) (uf : bool) (k : nat),
+  1 <= k -> find_nodes fx t m root uf (Some k) = firstn k (visits t m root uf (rf_guard fx)).
+Proof.
+  intros fx t m root uf k Hk. unfold find_nodes, do_traversal.
+  rewrite (trav_ext _ _ _ _ _ _ _ _ (collect_cb_S k)). rewrite trav_stop.
+  rewrite sfold_collect by (cbn; lia). cbn [length]. rewrite Nat.sub_0_r, app_nil_r, rev_involutive.
+  now rewrite visits_V.
+Qed.
+
+Theorem find_nodes_nolimit_lemma : forall (fx : rfixes) (t : tree) (m : matcher) (root : path) (uf : bool),
+  find_nodes fx t m root uf None = visits t m root uf (rf_guard fx).
+Proof. reflexivity. Qed.
+
+(* ------------------------------------------------------------------ the filter side, spelled out *)
+
+(* session r gets the Message iff it may be sent to and owns a node that some pattern of the table matches clause by clause
+   and whose Message passes THAT pattern's filter *)
+Lemma gets_spec : forall (st : rstate) (s : sid) (self_ok : bool) (mt : matcher) (r : sid),
+  matcher_wf mt ->
+  (gets st s self_ok mt r = true <->
+   eligible s self_ok r = true /\
+   exists n e, In n (sv_tree (rs_srv st)) /\ In e (all_entries mt) /\ owned_by (sv_sessions (rs_srv st)) r n = true /\
+               pat_matches (e_pat e) (n_path n) = true /\ filter_ok (e_flt e) (Some (n_data n)) = true).
+Proof.
+  intros st s self_ok mt r MWF. unfold gets. rewrite andb_true_iff, existsb_exists. split.
+  - intros [He [n [Hn Hx]]]. split; [assumption|]. apply andb_true_iff in Hx. destruct Hx as [Ho Hm].
+    apply (matches_path_spec mt _ _ MWF) in Hm. destruct Hm as [e [H1 [H2 H3]]]. exists n, e. now repeat split.
+  - intros [He [n [e [Hn [H1 [Ho [H2 H3]]]]]]]. split; [assumption|]. exists n. split; [assumption|].
+    apply andb_true_iff. split; [assumption|]. apply (matches_path_spec mt _ _ MWF). exists e. now repeat split.
+Qed.
+
+(* PutPathsFromMessage: with at least as many filter values as keys, key i gets filter value i (no bleed-down) *)
+Lemma paths_from_message_aligned : forall (keys : list spath) (flts : list (option qfilter)) (cur : option qfilter),
+  length keys <= length flts ->
+  paths_from_message keys flts cur = combine (map fix_path keys) (firstn (length keys) flts).
+Proof.
+  induction keys as [|k keys IH]; intros flts cur H; [reflexivity|].
+  destruct flts as [|f flts]; [cbn in H; lia|]. cbn [paths_from_message map length firstn combine tl]. f_equal.
+  apply IH. cbn in H. lia.
+Qed.
+
+(* ... and a key beyond the filter values inherits the last filter value *)
+Lemma paths_from_message_bleed : forall (keys : list spath) (cur : option qfilter),
+  paths_from_message keys [] cur = map (fun k => (fix_path k, cur)) keys.
+Proof. induction keys as [|k keys IH]; intros cur; [reflexivity|]. cbn [paths_from_message map tl]. f_equal. apply IH. Qed.
+
+Lemma filters_align_lemma : forall (keys : list spath) (flts : list (option qfilter)) (cur : option qfilter),
+  (length keys <= length flts ->
+   paths_from_message keys flts cur = combine (map fix_path keys) (firstn (length keys) flts)) /\
+  paths_from_message keys [] cur = map (fun k => (fix_path k, cur)) keys.
+Proof. intros keys flts cur. split; [apply paths_from_message_aligned | apply paths_from_message_bleed]. Qed.
+
 (* AbstractReflectSession::BroadcastToAllSessions *)
 Lemma broadcast_spec : forall (sessions : list session) (s : sid) (to_self : bool) (d : dlv) (infos : list rinfo),
   NoDup (map s_id sessions) ->
